@@ -222,4 +222,148 @@ theorem mem_walk (s : State β) (root p : Path) (h : p ∈ walk s root) :
     · simp at this
   · simp at he
 
+/-! ### Listing facts: steps that write elsewhere do not change `children` / `walk`; entries never vanish
+under `mkdir/create/append/close` -/
+
+/-- not `rename` / `remove` -/
+def Step.simple : Step β → Bool
+  | .rename _ _ => false
+  | .remove _ => false
+  | _ => true
+
+theorem step_simple (s : State β) (st : Step β) (h : st.simple = true) :
+    step s st = s ∨ ∃ q f, q ∈ st.tgt ∧ step s st = set s q f := by
+  cases st with
+  | mkdir p => simp only [step]; split; · exact .inr ⟨p, _, by simp [Step.tgt], rfl⟩
+               · exact .inl rfl
+  | create p => exact .inr ⟨p, _, by simp [Step.tgt], rfl⟩
+  | append p ch => simp only [step]; split; · exact .inr ⟨p, _, by simp [Step.tgt], rfl⟩
+                   · exact .inl rfl
+  | close p => exact .inl rfl
+  | rename a b => simp [Step.simple] at h
+  | remove p => simp [Step.simple] at h
+
+theorem filterMap_congr' {α γ : Type} (l : List α) (f g : α → Option γ) (h : ∀ x ∈ l, f x = g x) :
+    l.filterMap f = l.filterMap g := by
+  induction l with
+  | nil => rfl
+  | cons a r ih =>
+    rw [List.filterMap_cons, List.filterMap_cons, h a (List.mem_cons_self ..),
+      ih (fun x hx => h x (List.mem_cons_of_mem _ hx))]
+
+/-- a key-indexed enumeration ignores a `set` at a key it maps to nothing -/
+theorem filterMap_set {γ : Type} (F : Path → Option γ) (s : State β) (q : Path) (f : File β) (hF : F q = none) :
+    (set s q f).filterMap (fun e => F e.1) = s.filterMap (fun e => F e.1) := by
+  induction s with
+  | nil => simp only [set, List.filterMap_cons, hF, List.filterMap_nil]
+  | cons e r ih =>
+    obtain ⟨a, g⟩ := e
+    by_cases ha : a = q
+    · subst ha; simp only [set, if_true, List.filterMap_cons]
+    · simp only [set, ha, if_false, List.filterMap_cons, ih]
+
+theorem key_mem_set (s : State β) (q : Path) (f : File β) (a : Path) (g : File β) (h : (a, g) ∈ s) :
+    ∃ g', (a, g') ∈ set s q f := by
+  induction s with
+  | nil => cases h
+  | cons e r ih =>
+    obtain ⟨b, gb⟩ := e
+    by_cases hb : b = q
+    · subst hb
+      simp only [set, if_true]
+      rcases List.mem_cons.mp h with h1 | h1
+      · cases h1; exact ⟨f, List.mem_cons_self ..⟩
+      · exact ⟨g, List.mem_cons_of_mem _ h1⟩
+    · simp only [set, hb, if_false]
+      rcases List.mem_cons.mp h with h1 | h1
+      · cases h1; exact ⟨g, List.mem_cons_self ..⟩
+      · obtain ⟨g', hg'⟩ := ih h1; exact ⟨g', List.mem_cons_of_mem _ hg'⟩
+
+/-- ... and never loses an element -/
+theorem mem_filterMap_set {γ : Type} (F : Path → Option γ) (s : State β) (q : Path) (f : File β) (x : γ)
+    (h : x ∈ s.filterMap (fun e => F e.1)) : x ∈ (set s q f).filterMap (fun e => F e.1) := by
+  rw [List.mem_filterMap] at h ⊢
+  obtain ⟨⟨a, g⟩, he, hx⟩ := h
+  obtain ⟨g', hg'⟩ := key_mem_set s q f a g he
+  exact ⟨(a, g'), hg', hx⟩
+
+theorem children_set (s : State β) (p q : Path) (f : File β) (h : ¬ p <+: q) :
+    children (set s q f) p = children s p := by
+  have hq : q.dropLast ≠ p := fun e => h (e ▸ List.dropLast_prefix q)
+  exact filterMap_set (fun k => if k.dropLast = p then k.getLast? else none) s q f (by simp [hq])
+
+theorem mem_children_set (s : State β) (p q : Path) (f : File β) (n : Name) (h : n ∈ children s p) :
+    n ∈ children (set s q f) p :=
+  mem_filterMap_set (fun k => if k.dropLast = p then k.getLast? else none) s q f n h
+
+theorem mem_children_of_get (s : State β) (p : Path) (n : Name) (h : get s (p ++ [n]) ≠ none) :
+    n ∈ children s p := by
+  induction s with
+  | nil => simp [get] at h
+  | cons e r ih =>
+    obtain ⟨a, g⟩ := e
+    simp only [children, List.filterMap_cons] at ih ⊢
+    by_cases ha : a = p ++ [n]
+    · subst ha; simp
+    · simp only [get, ha, if_false] at h
+      split
+      · exact ih h
+      · exact List.mem_cons_of_mem _ (ih h)
+
+/-- `walk` with the enumerated list and the looked-up state separated -/
+def walkAux (t s : State β) (root : Path) : List Path :=
+  t.filterMap (fun e => if root.isPrefixOf e.1 && isReg s e.1 then some e.1 else none)
+
+theorem walk_eq (s : State β) (root : Path) : walk s root = walkAux s s root := rfl
+
+theorem isPrefixOf_false {root q : Path} (h : ¬ root <+: q) : root.isPrefixOf q = false := by
+  cases hb : root.isPrefixOf q with
+  | false => rfl
+  | true => exact absurd (List.isPrefixOf_iff_prefix.mp hb) h
+
+theorem walkAux_set_right (t s : State β) (root q : Path) (f : File β) (h : ¬ root <+: q) :
+    walkAux t (set s q f) root = walkAux t s root := by
+  unfold walkAux
+  apply filterMap_congr'
+  intro e _
+  by_cases hp : root <+: e.1
+  · have : q ≠ e.1 := fun he => h (he ▸ hp)
+    simp [isReg, get_set, this]
+  · simp [isPrefixOf_false hp]
+
+theorem walkAux_set_left (t s : State β) (root q : Path) (f : File β) (h : ¬ root <+: q) :
+    walkAux (set t q f) s root = walkAux t s root :=
+  filterMap_set (fun k => if root.isPrefixOf k && isReg s k then some k else none) t q f
+    (by simp [isPrefixOf_false h])
+
+theorem walk_set (s : State β) (root q : Path) (f : File β) (h : ¬ root <+: q) :
+    walk (set s q f) root = walk s root := by
+  rw [walk_eq, walkAux_set_right _ _ _ _ _ h, walkAux_set_left _ _ _ _ _ h]; rfl
+
+/-- Steps that are simple and write nowhere at or below `p` keep `children s p` and `walk s p`. -/
+theorem children_walk_exec (steps : List (Step β)) (s : State β) (p : Path)
+    (h : ∀ st ∈ steps, st.simple = true ∧ ∀ q ∈ st.tgt, ¬ p <+: q) :
+    children (exec steps s) p = children s p ∧ walk (exec steps s) p = walk s p := by
+  induction steps generalizing s with
+  | nil => exact ⟨rfl, rfl⟩
+  | cons a r ih =>
+    rw [exec_cons]
+    obtain ⟨h1, h2⟩ := ih (step s a) (fun st hst => h st (List.mem_cons_of_mem _ hst))
+    obtain ⟨hs, ht⟩ := h a (List.mem_cons_self ..)
+    rcases step_simple s a hs with he | ⟨q, f, hq, he⟩
+    · rw [h1, h2, he]; exact ⟨rfl, rfl⟩
+    · rw [h1, h2, he, children_set _ _ _ _ (ht q hq), walk_set _ _ _ _ (ht q hq)]; exact ⟨rfl, rfl⟩
+
+/-- Simple steps never remove a name from a directory listing. -/
+theorem mem_children_exec (steps : List (Step β)) (s : State β) (p : Path) (n : Name)
+    (h : ∀ st ∈ steps, st.simple = true) (hn : n ∈ children s p) : n ∈ children (exec steps s) p := by
+  induction steps generalizing s with
+  | nil => exact hn
+  | cons a r ih =>
+    rw [exec_cons]
+    apply ih _ (fun st hst => h st (List.mem_cons_of_mem _ hst))
+    rcases step_simple s a (h a (List.mem_cons_self ..)) with he | ⟨q, f, _, he⟩
+    · rw [he]; exact hn
+    · rw [he]; exact mem_children_set _ _ _ _ _ hn
+
 end HedVerif.FS
